@@ -19,6 +19,7 @@ SPEC = {
         'model of encodeValue/ci is hand written; tied by replaying Encode/Encode/Reset/Encode on the same graphs (vm_compute) and by mutation tests',
         'the model records EVERY pointer edge to a struct/slice/array/map on ONE stack: it has no pointer that is dereferenced unrecorded (the builtin shortcut encodeIB(baseRVRV(..)) of the struct/slice/map coders) and no side encoder with a stack of its own (Canonical out-of-band map keys). The pinned code had both (F20-3, F20-4: fatal stack overflow on cycles through *[]interface{} / *map[string]interface{} fields, elements, map values, and through pointer map keys under Canonical); repaired in /repo. C20_every_pointer_edge_recorded / C20_unrecorded_edge_refuted state the assumption on the model; the deterministic harness streams ptrcoll / ptrkey place a pointer to a container in every position in which the encoder dereferences one (simple / omitempty / toarray struct field, slice / array / MapBySlice element, map key / value, double pointer, interface, out-of-band key) and check it on the implementation',
         're-entrant Selfers (CodecEncodeSelf calling MustEncode / Encode on the same Encoder) are transparent in the model: a Selfer node is the struct of what it writes; the harness stream selfer checks that nested calls keep the stack (cycle through Selfers reported, acyclic graphs with a pointer above a Selfer accepted, bytes equal with and without the option)',
+        'the model is untyped: C20_leaf_table has no position dimension (position is the quantified graph of C20_leaves) and the model has no per-element-kind shortcut inside containers; the harness stream leafpos checks on the implementation that the static type of the slot (field, []T, [n]T, chan T, map value / key, *T, **T, interface) does not change what a leaf does, and replays the depth-1 product on the model (Corr cases)',
         'user marshalers: failing or panicking ones are leaves (their error is recovered by Encode defer); well-behaved ones are scalars',
     ],
     'trusted_extra': ['modelled, not verified: encodeValue, circularRefChecker, kStruct/kArrayW/kMap traversal order, panicValToErr (encode.go, helper.go); reflection, Go stack growth'],
@@ -29,7 +30,7 @@ def main(chk):
 
 MANIFEST = {
     'category': 'proof',
-    'technique': 'Coq proofs (induction on the stack budget with a pigeonhole measure on the circular-reference stack; ancestor invariant) on an executable model of the encoder traversal + vm_compute correspondence on random value graphs + direct oracle with an independent cycle detector on real Encoders (5 formats) on random graphs and on deterministic shape streams (pointers to fast-path collections in every shortcut position, pointer map keys with and without Canonical, re-entrant Selfers), child processes for the runs that exhaust or may exhaust the stack',
+    'technique': 'Coq proofs (induction on the stack budget with a pigeonhole measure on the circular-reference stack; ancestor invariant) on an executable model of the encoder traversal + vm_compute correspondence on random value graphs + direct oracle with an independent cycle detector on real Encoders (5 formats) on random graphs and on deterministic shape streams (pointers to fast-path collections in every shortcut position, pointer map keys with and without Canonical, re-entrant Selfers; the leaf table x position product: every leaf kind of C20_leaf_table with its static type visible in every container position, one and two levels deep, error class or the bytes of the twin value), child processes for the runs that exhaust or may exhaust the stack',
     'text': 'For ALL heaps and values: with CheckCircularRef a reachable cycle through a pointer-to-container is rejected with an error within a stack budget of (cells+1)*(R+1)+1 nested edges (C20_sound, C20_depth); no acyclic graph is ever reported circular, whatever the sharing (C20_complete); an unrepresentable leaf anywhere prevents a normal return and gives an error (C20_leaves, C20_leaf_table); a successful Encode leaves the stack balanced and Reset after an error gives a fresh Encoder (C20_balanced, C20_reset); without the option cyclic graphs exhaust any budget (C20_nocheck_diverges).',
     'note': 'Trusted: Coq kernel, the hand-written traversal model (correspondence-checked on random graphs and Encode/Encode/Reset/Encode op sequences), the harness and its reflect-based cycle detector, Go toolchain. Interior pointers to offset 0 (same address, other type) are generated and covered by the theorems (C20_typed_identity); embedded-pointer cycles are not generated. The model assumes that every pointer edge to a container is recorded on one stack (C20_every_pointer_edge_recorded, C20_unrecorded_edge_refuted); the implementation is checked for it position by position by the ptrcoll / ptrkey / selfer streams (findings F20-3, F20-4 repaired; the selfer stream also exposed F17-3 (pointer-shaped by-value values whose address the encoder needs), repaired). Cycles without any pointer-to-container edge are outside the property (stack overflow or hang, recorded in evidence as child.stack / child.hang).',
 }
